@@ -140,6 +140,19 @@ CHECKS = {
          'the stated slot-class domain.',
          'TLC model checking + TLC-generated cases + batched trace validation; stdlib-only projection and pure-AST reference '
          'used only for validity and cross-check'),
+ 'C14': ('model_checking', '4-C14',
+         'Traversal laws model-checked exhaustively on all ordered trees <= 6 nodes x all filter sets (iteration idioms and the '
+         'generator as actions, 14 theorems); every (tree <= 5, filter, on/back/recurse/self_) case generated by TLC replayed '
+         'into pfst in three source shapes; every traversal API x parameter combination on a 72-program corpus x layout '
+         'variants (+ repository sources in the thorough tier) validated by TLC against the same spec on CPython own parse, '
+         'source order computed from ast/tokenize positions.',
+         'explicit TLA+ spec (Walk.tla) + TLC model checking + spec->code table replay + code->spec trace validation'),
+ 'C04': ('model_checking', '4-C04',
+         'An explicit TLA+ specification of edit locality is model-checked against a documentation-derived line-level reference '
+         'editor plus nine damage families (up to 1.4M states); its case table is replayed into pfst in 17 syntactic contexts, '
+         'and ~2000 random edits per quick run (~24000 thorough) on comment-heavy corpus layouts are validated by TLC per event: '
+         'Out/In token regions, comment conservation, outside lines and blank lines.',
+         'TLC model checking + TLC-generated cases replayed (spec->code) + trace validation (code->spec), tokenize/ast oracles'),
 }
 
 NOT_YET = {}
